@@ -926,7 +926,7 @@ package sod
 //@ ensures [C01 del.schema] imp(err == nil, has(db.schemas, T))
 //@ ensures [C01 del.ids] imp(old(has(db.schemas, T)), forallk(id, uint64, imp(has(db.schemas[T].ObjectIndex.ObjectIds, id), old(has(db.schemas[T].ObjectIndex.ObjectIds, id)) && db.schemas[T].ObjectIndex.ObjectIds[id] == old(db.schemas[T].ObjectIndex.ObjectIds[id]))) && forallk(w, string, imp(has(db.schemas[T].ObjectIndex.uuids, w), db.schemas[T].ObjectIndex.uuids[w] == old(db.schemas[T].ObjectIndex.uuids[w]))))
 //@ ensures [C05 del.error-kind] imp(err != nil && old(has(db.schemas, T)), isStorage(err))
-//@ ensures [C01 del.gone] imp(has(db.schemas, T) && (err == nil || isStorage(err)) && old(has(db.schemas, T)) && db.schemas[T].coherent, !has(db.schemas[T].ObjectIndex.uuids, u) && !cached(db, db.schemas[T], u) && !pend(db, db.schemas[T], u))
+//@ ensures [C01 C10 C12 del.gone] imp(has(db.schemas, T) && (err == nil || isStorage(err)) && old(has(db.schemas, T)) && db.schemas[T].coherent, !has(db.schemas[T].ObjectIndex.uuids, u) && !cached(db, db.schemas[T], u) && !pend(db, db.schemas[T], u))
 //@ ensures [C01 C10 del.file-gone] imp(err == nil && old(has(db.schemas, T)) && db.schemas[T].coherent, FSk[opath(db, db.schemas[T], u)] == 0)
 //@ ensures [C01 del.others] imp(old(has(db.schemas, T)), forallk(w, string, imp(w != u, has(db.schemas[T].ObjectIndex.uuids, w) == old(has(db.schemas[T].ObjectIndex.uuids, w)) && value(db, db.schemas[T], w) == old(value(db, db.schemas[T], w)))))
 //@ ensures [C05 del.storage-detectable] imp(isStorage(err) && old(has(db.schemas, T)) && db.schemas[T].coherent, !collK2(db, db.schemas[T]) || wfColl(db, db.schemas[T]))
